@@ -183,7 +183,7 @@ func buildWorker(id, cache, work string) (string, error) {
 		}
 	}
 	ov := overlayFor(work, extra)
-	bin := filepath.Join(work, "vworker")
+	bin := filepath.Join(work, "vworker-"+id)
 	env := goEnv(cache)
 	// build inside /repo with the module's own go.mod; readonly so /repo is never rewritten
 	for i, e := range env {
@@ -361,6 +361,28 @@ func realMain(id, tier, replay string, workers int, seed int64, cache, work stri
 		capHit = true
 	}
 
+	if id == "C06" {
+		// uninstrumented repetition pass (Go's own random map order) as a cross-check that the seam is complete
+		pbin, err := buildWorker("C06P", cache, work)
+		if err != nil {
+			fmt.Fprintln(os.Stderr, err)
+			return 2
+		}
+		of := filepath.Join(work, "out-plain.json")
+		if out, err := runWorker(pbin, wenv, "run", "C06P", tier, "0", "1", "0", of); err != nil {
+			fmt.Fprintln(os.Stderr, "BROKEN: uninstrumented pass failed:", err, tail(out, 3000))
+			return 2
+		}
+		var wo WorkerOut
+		b, _ := os.ReadFile(of)
+		json.Unmarshal(b, &wo)
+		notes = append(notes, fmt.Sprintf("uninstrumented repetition pass: %d profiles x 30 runs, %d difference(s)", wo.Cases, len(wo.Violations)))
+		evals += wo.Evals
+		for _, v := range wo.Violations {
+			vios = append(vios, v)
+			vioCounts[v.Sig]++
+		}
+	}
 	if id == "C10" {
 		rv, rnote, err := racePass(tier, cache, work, wenv)
 		if err != nil {
